@@ -1612,6 +1612,9 @@ post_t * instance_t::parse_post(char *          line,
           if (post->cost->sign() < 0)
             throw parse_error(_("A posting's cost may not be negative"));
 
+          if (post->cost->has_commodity())
+            context.journal->register_commodity(post->cost->commodity(), post.get());
+
           post->cost->in_place_unround();
 
           if (per_unit) {
